@@ -24,9 +24,13 @@ CheckCase(c) ==
          /\ Verdict(id, "length", Len(c.jack) = Len(x) + 1)
          /\ Verdict(id, "entry0=value", c.jack[1] = c.obs.value)
          /\ Verdict(id, "leave-one-out", Len(c.jack) # Len(exp) \/ RCloseSeq(c.jack, exp, T12, RMul(T12, Sc(c.obs))))
+         \* ... and the naive error the library itself reports (gamma_method with S = 0)
+         /\ Verdict(id, "jackknife variance = squared naive (S=0) error reported by gamma_method",
+                    RClose(RSq(c.naive), JackVar(c.jack), "1/100000", RMul("1/100000000000000000000", RSq(Sc(c.obs)))))
          /\ Verdict(id, "jackknife-variance=naive-error^2",
                     RClose(JackVar(c.jack), NaiveVar(c.obs), "1/1000000", RMul("1/100000000000000000000", RSq(Sc(c.obs)))))
     [] c.ev = "jack_import" -> Restored(id, c.res, c.obs, T12, TRUE)
+    [] c.ev = "frame" -> Verdict(id, c.what, c.before = c.after)
     [] c.ev = "boot_export" ->
          LET x == Xs(c.obs)  exp == BootOf(c.obs.value, x, c.table) IN
          /\ Verdict(id, "length", Len(c.boots) = Len(c.table) + 1)
